@@ -123,6 +123,8 @@ package keystore
 //@   requires tx-entry: !in_tx
 //@ func (*AddrManager).updateManagedAddress
 //@   requires tx-entry: !in_tx
+//@ func (*AddrManager).setManagedAddresses
+//@   requires tx-entry: !in_tx
 //@ func (*KeystoreManagerForPoC).useKeystore
 //@   requires tx-entry: !in_tx
 //@ func (*KeystoreManagerForPoC).NewKeystore
